@@ -4,3 +4,357 @@ from __future__ import annotations
 import ast
 
 from .gen import Shape, cstr, extractor, parse
+
+
+POSN = {"center": "Center", "left": "Left", "right": "Right", "inner": "Inner", "outer": "Outer"}
+
+
+def const(node):
+    if not isinstance(node, ast.Constant):
+        raise Shape(f"expected a literal, got {ast.dump(node)[:80]}")
+    return node.value
+
+
+def clist(items):
+    return "[" + "; ".join(items) + "]"
+
+
+# ---------------------------------------------------------------------------
+# G2: constants
+
+
+@extractor("G2")
+def g2():
+    out = ["From Coq Require Import List String.", "From XV Require Import Base.Seq1D Model.Axis.",
+           "Import ListNotations.", "Open Scope string_scope."]
+    tree = parse("axis.py")
+    vals = {}
+    for n in tree.body:
+        if isinstance(n, ast.Assign) and len(n.targets) == 1 and isinstance(n.targets[0], ast.Name):
+            vals[n.targets[0].id] = n.value
+    vp = const(vals["VALID_POSITION_NAMES"])
+    out.append("Definition gen_valid_positions : list string := " +
+               clist(cstr(s) for s in vp.split("|")) + ".")
+    fb = vals["FALLBACK_SHIFTS"]
+    if not isinstance(fb, ast.Dict):
+        raise Shape("FALLBACK_SHIFTS is not a dict literal")
+    rows = []
+    for k, v in zip(fb.keys, fb.values):
+        if not isinstance(v, ast.Tuple):
+            raise Shape("FALLBACK_SHIFTS value is not a tuple")
+        rows.append(f"({POSN[const(k)]}, {clist(POSN[const(e)] for e in v.elts)})")
+    out.append("Definition gen_fallback_shifts : list (pos * list pos) := " + clist(rows) + ".")
+    # padding.py boundary word -> xarray pad mode
+    tree = parse("padding.py")
+    m = None
+    for n in tree.body:
+        if isinstance(n, ast.Assign) and isinstance(n.targets[0], ast.Name) and \
+                n.targets[0].id == "_XGCM_BOUNDARY_KWARG_TO_XARRAY_PAD_KWARG":
+            m = n.value
+    if not isinstance(m, ast.Dict):
+        raise Shape("pad-mode map not found")
+    mode = {"wrap": "Periodic", "constant": "Fill", "edge": "Extend"}
+    rows = []
+    for k, v in zip(m.keys, m.values):
+        kk = const(k)
+        key = "None" if kk is None else f"(Some {cstr(kk)})"
+        rows.append(f"({key}, {mode[const(v)]})")
+    out.append("Definition gen_pad_modes : list (option string * rule) := " + clist(rows) + ".")
+    # grid_ufunc.py DISALLOWED_OVERLAP_POSITIONS
+    tree = parse("grid_ufunc.py")
+    d = None
+    for n in tree.body:
+        if isinstance(n, ast.Assign) and isinstance(n.targets[0], ast.Name) and \
+                n.targets[0].id == "DISALLOWED_OVERLAP_POSITIONS":
+            d = n.value
+    if not isinstance(d, ast.List):
+        raise Shape("DISALLOWED_OVERLAP_POSITIONS not a list literal")
+    out.append("Definition gen_disallowed_overlap : list pos := " +
+               clist(POSN[const(e)] for e in d.elts) + ".")
+    return "\n".join(out)
+
+
+g2.fallback = ("From Coq Require Import List String.\nFrom XV Require Import Base.Seq1D Model.Axis.\n"
+               "Import ListNotations.\n"
+               "Definition gen_valid_positions : list string := [].\n"
+               "Definition gen_fallback_shifts : list (pos * list pos) := [].\n"
+               "Definition gen_pad_modes : list (option string * rule) := [].\n"
+               "Definition gen_disallowed_overlap : list pos := [].")
+
+
+# ---------------------------------------------------------------------------
+# G1: the table of predefined grid ufuncs in gridops.py
+
+
+def is_ellipsis_slice(node, lower, upper):
+    """a[..., lower:upper] with integer-or-None bounds"""
+    if not (isinstance(node, ast.Subscript) and isinstance(node.slice, ast.Tuple)):
+        return False
+    elts = node.slice.elts
+    if len(elts) != 2 or not (isinstance(elts[0], ast.Constant) and elts[0].value is Ellipsis):
+        return False
+    s = elts[1]
+    if not isinstance(s, ast.Slice) or s.step is not None:
+        return False
+
+    def val(x):
+        if x is None:
+            return None
+        if isinstance(x, ast.UnaryOp) and isinstance(x.op, ast.USub):
+            return -const(x.operand)
+        return const(x)
+    return val(s.lower) == lower and val(s.upper) == upper
+
+
+def kw_axis_last(call):
+    for k in call.keywords:
+        if k.arg == "axis":
+            v = k.value
+            if isinstance(v, ast.UnaryOp) and isinstance(v.op, ast.USub) and const(v.operand) == 1:
+                return True
+    return False
+
+
+def np_call(node, name):
+    return (isinstance(node, ast.Call) and isinstance(node.func, ast.Attribute) and
+            isinstance(node.func.value, ast.Name) and node.func.value.id == "np" and
+            node.func.attr == name)
+
+
+def bexpr(node, env, helpers):
+    """Translate an array expression over the single parameter into a bexpr term."""
+    if isinstance(node, ast.Name):
+        if node.id in env:
+            return env[node.id]
+        raise Shape(f"unknown name {node.id}")
+    if is_ellipsis_slice(node, 1, None):
+        return f"(BTail {bexpr(node.value, env, helpers)})"
+    if is_ellipsis_slice(node, None, -1):
+        return f"(BInit {bexpr(node.value, env, helpers)})"
+    if isinstance(node, ast.BinOp):
+        if isinstance(node.right, ast.Constant):
+            c = node.right.value
+            if float(c) != int(c):
+                raise Shape("non-integral constant")
+            op = {ast.Div: "BDivC", ast.Mult: "BMulC"}.get(type(node.op))
+            if op is None:
+                raise Shape("unsupported scalar operation")
+            return f"({op} {bexpr(node.left, env, helpers)} ({int(c)})%Z)"
+        op = {ast.Sub: "BSub", ast.Add: "BAdd", ast.Mult: "BMul", ast.Div: "BDiv"}.get(type(node.op))
+        if op is None:
+            raise Shape("unsupported binary operation")
+        return f"({op} {bexpr(node.left, env, helpers)} {bexpr(node.right, env, helpers)})"
+    if np_call(node, "min") or np_call(node, "max"):
+        if not kw_axis_last(node) or len(node.args) != 1:
+            raise Shape("np.min/max without axis=-1")
+        inner = node.args[0]
+        if isinstance(inner, ast.Name) and inner.id in env and isinstance(env[inner.id], tuple):
+            a, b = env[inner.id]
+        elif np_call(inner, "stack") and kw_axis_last(inner) and isinstance(inner.args[0], ast.List) \
+                and len(inner.args[0].elts) == 2:
+            a, b = (bexpr(e, env, helpers) for e in inner.args[0].elts)
+        else:
+            raise Shape("np.min/max of something that is not a 2-stack on the last axis")
+        return f"({'BMinStack' if node.func.attr == 'min' else 'BMaxStack'} {a} {b})"
+    if np_call(node, "cumsum"):
+        if not kw_axis_last(node) or len(node.args) != 1:
+            raise Shape("np.cumsum without axis=-1")
+        return f"(BCumsum {bexpr(node.args[0], env, helpers)})"
+    if isinstance(node, ast.Call) and isinstance(node.func, ast.Name) and node.func.id in helpers:
+        if len(node.args) != 1:
+            raise Shape("helper called with several arguments")
+        return body_expr(helpers[node.func.id], bexpr(node.args[0], env, helpers), helpers)
+    raise Shape(f"unsupported expression {ast.dump(node)[:100]}")
+
+
+def body_expr(fn, arg, helpers):
+    """Body of a one-parameter function as a bexpr (statements: tuple/simple assigns, return)."""
+    if len(fn.args.args) != 1:
+        raise Shape(f"{fn.name}: not a one-parameter function")
+    env = {fn.args.args[0].arg: arg}
+    body = [s for s in fn.body if not (isinstance(s, ast.Expr) and isinstance(s.value, ast.Constant))]
+    for s in body[:-1]:
+        if not isinstance(s, ast.Assign) or len(s.targets) != 1:
+            raise Shape(f"{fn.name}: unsupported statement")
+        t = s.targets[0]
+        if isinstance(t, ast.Tuple) and isinstance(s.value, ast.Tuple) and len(t.elts) == len(s.value.elts):
+            vals = [bexpr(v, env, helpers) for v in s.value.elts]
+            for n, v in zip(t.elts, vals):
+                env[n.id] = v
+        elif isinstance(t, ast.Name):
+            v = s.value
+            if np_call(v, "stack") and kw_axis_last(v) and isinstance(v.args[0], ast.List) \
+                    and len(v.args[0].elts) == 2:
+                env[t.id] = tuple(bexpr(e, env, helpers) for e in v.args[0].elts)
+            else:
+                env[t.id] = bexpr(v, env, helpers)
+        else:
+            raise Shape(f"{fn.name}: unsupported assignment")
+    last = body[-1]
+    if isinstance(last, ast.Raise):
+        return None
+    if not isinstance(last, ast.Return):
+        raise Shape(f"{fn.name}: last statement is not return/raise")
+    return bexpr(last.value, env, helpers)
+
+
+SIG_RE = None
+
+
+@extractor("G1")
+def g1():
+    import re
+    tree = parse("gridops.py")
+    helpers = {}
+    entries = []
+    for n in tree.body:
+        if not isinstance(n, ast.FunctionDef):
+            continue
+        decos = [d for d in n.decorator_list]
+        if not decos:
+            helpers[n.name] = n
+            continue
+        if len(decos) != 1 or not (isinstance(decos[0], ast.Call) and
+                                   isinstance(decos[0].func, ast.Name) and
+                                   decos[0].func.id == "as_grid_ufunc"):
+            raise Shape(f"{n.name}: unexpected decorator")
+        kws = {k.arg: k.value for k in decos[0].keywords}
+        if decos[0].args:
+            raise Shape(f"{n.name}: positional decorator arguments")
+        unknown = set(kws) - {"signature", "boundary_width", "fill_value", "pad_before_func",
+                              "boundary", "dask", "map_overlap"}
+        if unknown:
+            raise Shape(f"{n.name}: unknown options {unknown}")
+        sig = const(kws["signature"]).replace(" ", "")
+        m = re.fullmatch(r"\((\w+):(\w+)\)->\((\w+):(\w+)\)", sig)
+        if not m or m.group(1) != m.group(3):
+            raise Shape(f"{n.name}: signature {sig!r} is not one-axis one-argument")
+        dummy = m.group(1)
+        width = "None"
+        if "boundary_width" in kws:
+            bw = kws["boundary_width"]
+            if not (isinstance(bw, ast.Dict) and len(bw.keys) == 1 and const(bw.keys[0]) == dummy
+                    and isinstance(bw.values[0], ast.Tuple) and len(bw.values[0].elts) == 2):
+                raise Shape(f"{n.name}: boundary_width shape")
+            lo, hi = (const(e) for e in bw.values[0].elts)
+            if not (isinstance(lo, int) and isinstance(hi, int) and lo >= 0 and hi >= 0):
+                raise Shape(f"{n.name}: boundary_width values")
+            width = f"(Some ({lo}%nat, {hi}%nat))"
+        fill = "None"
+        if "fill_value" in kws:
+            fv = const(kws["fill_value"])
+            if fv is None:
+                fill = "None"
+            elif float(fv) == int(fv):
+                fill = f"(Some ({int(fv)})%Z)"
+            else:
+                raise Shape(f"{n.name}: non-integral fill_value")
+        pbf = "true"
+        if "pad_before_func" in kws:
+            pbf = "true" if const(kws["pad_before_func"]) else "false"
+        boundary = "None"
+        if "boundary" in kws:
+            b = const(kws["boundary"])
+            boundary = "None" if b is None else f"(Some {cstr(b)})"
+        for extra in ("dask", "map_overlap"):
+            if extra in kws:
+                raise Shape(f"{n.name}: option {extra} not modelled")
+        be = body_expr(n, "BArg", helpers)
+        body = "None" if be is None else f"(Some {be})"
+        entries.append(
+            "{| ge_name := %s; ge_from := %s; ge_to := %s; ge_width := %s; ge_fill := %s; "
+            "ge_boundary := %s; ge_pad_before := %s; ge_body := %s |}" % (
+                cstr(n.name), POSN[m.group(2)], POSN[m.group(4)], width, fill, boundary, pbf, body))
+    out = ["From Coq Require Import List String ZArith.", "From XV Require Import Model.Axis Model.GridOps.",
+           "Import ListNotations.", "Open Scope string_scope.",
+           "Definition gen_gridops : list gentry := [", ";\n".join(entries), "]."]
+    return "\n".join(out)
+
+
+g1.fallback = ("From Coq Require Import List String ZArith.\nFrom XV Require Import Model.Axis Model.GridOps.\n"
+               "Import ListNotations.\nDefinition gen_gridops : list gentry := [].")
+
+
+# ---------------------------------------------------------------------------
+# G4: the if/elif chain of Grid.cumsum
+
+
+@extractor("G4")
+def g4():
+    tree = parse("grid.py")
+    cls = [n for n in tree.body if isinstance(n, ast.ClassDef) and n.name == "Grid"][0]
+    fn = [n for n in cls.body if isinstance(n, ast.FunctionDef) and n.name == "cumsum"][0]
+    loops = [n for n in fn.body if isinstance(n, ast.For)]
+    if len(loops) != 1:
+        raise Shape("cumsum: expected one for loop")
+    chain = [s for s in loops[0].body if isinstance(s, ast.If) and isinstance(s.test, ast.BoolOp)]
+    if len(chain) != 1:
+        raise Shape("cumsum: expected one shift chain")
+    rows = []
+    node = chain[0]
+
+    def pair(cmp_and):
+        # pos == "a" and ax_to == "b"
+        if not (isinstance(cmp_and, ast.BoolOp) and isinstance(cmp_and.op, ast.And) and len(cmp_and.values) == 2):
+            raise Shape("cumsum: condition shape")
+        res = {}
+        for c in cmp_and.values:
+            if not (isinstance(c, ast.Compare) and len(c.ops) == 1 and isinstance(c.ops[0], ast.Eq)
+                    and isinstance(c.left, ast.Name)):
+                raise Shape("cumsum: comparison shape")
+            res[c.left.id] = const(c.comparators[0])
+        if set(res) != {"pos", "ax_to"}:
+            raise Shape("cumsum: compared names")
+        return POSN[res["pos"]], POSN[res["ax_to"]]
+
+    while True:
+        test = node.test
+        if not (isinstance(test, ast.BoolOp) and isinstance(test.op, ast.Or)):
+            raise Shape("cumsum: test is not an `or` of shift pairs")
+        pairs = [pair(v) for v in test.values]
+        trim = False
+        width = None
+        for s in node.body:
+            if isinstance(s, ast.Assign) and isinstance(s.targets[0], ast.Name):
+                if s.targets[0].id == "data":
+                    # data = data.isel(**{dim: slice(0, -1)})
+                    src = ast.unparse(s.value).replace(" ", "")
+                    if src != "data.isel(**{dim:slice(0,-1)})":
+                        raise Shape(f"cumsum: unexpected trim {src}")
+                    trim = True
+                elif s.targets[0].id == "ax_boundary_width":
+                    d = s.value
+                    if not (isinstance(d, ast.Dict) and isinstance(d.values[0], ast.Tuple)):
+                        raise Shape("cumsum: width shape")
+                    width = tuple(const(e) for e in d.values[0].elts)
+                else:
+                    raise Shape("cumsum: unexpected assignment")
+            elif isinstance(s, ast.Expr) and isinstance(s.value, ast.Constant):
+                continue
+            else:
+                raise Shape("cumsum: unexpected statement in chain")
+        if width is None:
+            raise Shape("cumsum: branch without width")
+        for f, t in pairs:
+            rows.append(f"(({f}, {t}), ({'true' if trim else 'false'}, ({width[0]}%nat, {width[1]}%nat)))")
+        if len(node.orelse) == 1 and isinstance(node.orelse[0], ast.If):
+            node = node.orelse[0]
+        elif len(node.orelse) == 1 and isinstance(node.orelse[0], ast.Raise):
+            exc = node.orelse[0].exc
+            if not (isinstance(exc, ast.Call) and isinstance(exc.func, ast.Name) and exc.func.id == "ValueError"):
+                raise Shape("cumsum: else branch does not raise ValueError")
+            break
+        else:
+            raise Shape("cumsum: chain does not end in raise")
+    # the cumsum call itself and the pad call
+    src = ast.unparse(loops[0])
+    if "data = data.cumsum(dim=dim)" not in src:
+        raise Shape("cumsum: xarray cumsum call changed")
+    out = ["From Coq Require Import List String.", "From XV Require Import Model.Axis.",
+           "Import ListNotations.",
+           "Definition gen_cumsum_table : list ((pos * pos) * (bool * (nat * nat))) := " + clist(rows) + "."]
+    return "\n".join(out)
+
+
+g4.fallback = ("From Coq Require Import List String.\nFrom XV Require Import Model.Axis.\nImport ListNotations.\n"
+               "Definition gen_cumsum_table : list ((pos * pos) * (bool * (nat * nat))) := [].")
